@@ -231,6 +231,81 @@ def program_purity(ctx):
             ctx.fail("Program.run (%s) altered raw arguments: %r became %r" % (outcome, diff[0], diff[1]), {"outcome": outcome})
 
 
+ECHO_SRC = '''
+from mpilot import params
+from mpilot.commands import Command
+
+GOT = {}
+
+
+class Echo(Command):
+    inputs = {
+        "LT": params.ListParameter(params.TupleParameter(), required=False),
+        "LG": params.ListParameter(required=False),
+        "LN": params.ListParameter(params.ListParameter(params.NumberParameter()), required=False),
+        "LS": params.ListParameter(params.StringParameter(), required=False),
+        "T": params.TupleParameter(required=False),
+        "N": params.NumberParameter(required=False),
+    }
+
+    def execute(self, **kw):
+        GOT[self.result_name] = kw
+        return True
+'''
+
+
+def from_file_values(ctx):
+    """values as a command file delivers them (lists whose items are tuples, lists, numbers and words - wrapped by the loader in its argument objects):
+    each list item is cleaned by the item type, tuples arrive as plain key-value maps, nested lists as lists, numbers given as text keep their kind and every digit"""
+    import sys, types
+    from mpilot.program import Program
+    name = "mpverif_echo"
+    if name not in sys.modules:
+        m = types.ModuleType(name)
+        sys.modules[name] = m
+        exec(compile(ECHO_SRC, name, "exec"), m.__dict__)
+    m = sys.modules[name]
+    cases = [
+        ("LT = [[a: 1], [b: 2, c: x]]", "LT", [{"a": "1"}, {"b": "2", "c": "x"}]),
+        ("LT = [[a: 1]]", "LT", [{"a": "1"}]),
+        ("LT = [[a: \"p q\"], [], [k: 2.5]]", "LT", [{"a": "p q"}, {}, {"k": "2.5"}]),
+        ("LG = [[a: 1], 5, [1, 2], \"s\", 2.5, [[k: v]]]", "LG", [{"a": 1}, 5, [1, 2], "s", 2.5, [{"k": "v"}]]),
+        ("LG = [[a: 1], [b: 2]]", "LG", [{"a": 1}, {"b": 2}]),
+        ("LN = [[1, 2.5], [], [\"3\", \"4.0\"]]", "LN", [[1, 2.5], [], [3, 4.0]]),
+        ("LS = [a, \"b c\", 5]", "LS", ["a", "b c", "5"]),
+        ("T = [k: v, j: 2]", "T", {"k": "v", "j": "2"}),
+        ("N = \"9007199254740993\"", "N", 9007199254740993),
+        ("N = \"-18014398509481985\"", "N", -18014398509481985),
+        ("N = \"123456789012345678901234567890\"", "N", 123456789012345678901234567890),
+        ("N = 9007199254740993", "N", 9007199254740993),
+        ("LN = [[\"9007199254740993\", 18014398509481985]]", "LN", [[9007199254740993, 18014398509481985]]),
+        ("N = \"0.1\"", "N", 0.1), ("N = \"1e3\"", "N", 1000.0), ("N = \"7\"", "N", 7),
+    ]
+
+    def typed(v):
+        if isinstance(v, dict):
+            return ("dict", sorted((k, typed(x)) for k, x in v.items()))
+        if isinstance(v, (list, tuple)):
+            return ("list", [typed(x) for x in v])
+        return (type(v).__name__, repr(v))
+    for text, key, want in cases:
+        src = "E = Echo(%s)\n" % text
+        m.GOT.clear()
+        try:
+            p = Program.from_source(src, libraries=(name,))
+            p.run()
+            got = m.GOT["E"].get(key, "<absent>")
+            outcome = "ok"
+        except Exception as e:
+            outcome, got = progrun.classify(e), None
+        ctx.case("from-file " + src, sample={"source": src, "outcome": outcome, "handed": repr(got)[:200]})
+        ctx.count("from_file_values")
+        if outcome != "ok":
+            ctx.fail("a documented value written in a command file is rejected: %s" % outcome, {"source": src, "parameter": key})
+        elif typed(got) != typed(want):
+            ctx.fail("the command is handed %r for %s; item by item, cleaned by the declared item type, the value is %r" % (got, key, want), {"source": src, "parameter": key})
+
+
 def documented_datatypes(ctx):
     """data-type names are mapped to the documented types, per library, whatever other libraries the process has loaded"""
     import numpy
@@ -343,6 +418,7 @@ def run(ctx):
                 metas.append((desc, cname, r1, r3c, param))
     documented_datatypes(ctx)
     program_purity(ctx)
+    from_file_values(ctx)
     answers = model.ask(lines)
     for line, (desc, cname, r1, r3, param), ans in zip(lines, metas, answers):
         impl = "ok" if r1[0] == "ok" else r1[0] + " " + r1[1]
